@@ -1,4 +1,7 @@
 import DymVerif.Lemmas.SponsShares
+import DymVerif.Lemmas.SponsWorld
+import DymVerif.Lemmas.SponsMin
+import DymVerif.Lemmas.SponsMixed
 import DymVerif.Lemmas.GenEqSpons
 /-
   Props/C16 — Sponsorship weights track staked power; endorsement claims are bounded.
@@ -14,14 +17,24 @@ import DymVerif.Lemmas.GenEqSpons
     (2) recorded power = bonded delegations   — FALSE after a validator slash (no hook fires);
                                                  true for slash-free histories with faithful hooks
     (3) below the minimum ⇒ the vote is gone  — the hook prunes exactly (`hook_below_min_prunes`); every
-                                                 RECORDED power is ≥ min in all histories; w.r.t. the bonded
-                                                 power FALSE after a slash
+                                                 RECORDED power is ≥ the minimum in force when the vote last
+                                                 changed, in all histories (`min_power_recorded_at_last_change`;
+                                                 ≥ the CURRENT minimum unless MsgUpdateParams raised it); w.r.t.
+                                                 the bonded power FALSE after a slash
     (4) at most one claim per epoch, none in the vote epoch — full strength w.r.t. the x/incentives
                                                  distribution epoch: `claim_once_per_epoch`, `no_claim_in_vote_epoch`
     (5) claims ≤ allotment                    — FALSE (claim uses current power against the snapshot);
-                                                 true for claim-only histories after a covering snapshot, in
-                                                 particular after every distribution-epoch end (shares are exact
-                                                 in all histories: `endorsement_shares_exact`)
+                                                 true for ALL mixed histories within a distribution epoch
+                                                 (votes, revocations, staking, slashes, funding, other epochs'
+                                                 ends, creation ops, parameter changes, claims) in which no
+                                                 staking message RAISES the recorded power of a voter who can
+                                                 still claim: `claims_le_allotment_mixed_partial`, from genesis
+                                                 `claims_le_allotment_mixed_from_init_partial` (shares are exact
+                                                 in all histories: `endorsement_shares_exact_from_init`)
+
+  The world is built by ops (`addGauge`, `addRollapp` = the RollappCreated hook, `setParams` =
+  MsgUpdateParams): the from-genesis theorems quantify over histories that create their gauges,
+  rollapps and endorsements themselves; `RaGauge` / `ShareInv` are proved, not assumed (`world_from_init`).
 -/
 namespace DymVerif.Props.C16
 open DymVerif.Spons
@@ -85,6 +98,44 @@ theorem distribution_eq_sum_of_votes_from_init (ma mv : Int) (h : 0 ≤ mv) (ops
     DistInv (run (State.init ma mv) ops) :=
   (distribution_eq_sum_of_votes _ ops (init_wf ma mv h) (init_distInv ma mv)).2
 
+/-- every history from genesis keeps the well-formedness, the distribution invariant and the
+    world-building invariant (fresh gauge ids, one rollapp gauge per endorsement, exact total shares,
+    votes weigh existing gauges only) -/
+theorem run_world (s : State) (ops : List Op) (wf : WF s) (inv : DistInv s) (w : World s) :
+    WF (run s ops) ∧ DistInv (run s ops) ∧ World (run s ops) := by
+  induction ops generalizing s with
+  | nil => exact ⟨wf, inv, w⟩
+  | cons op ops ih =>
+    have g := step_good (op := op) wf inv
+    exact ih _ g.1 g.2 (step_world wf inv w)
+
+theorem world_from_init (ma mv : Int) (h : 0 ≤ mv) (ops : List Op) :
+    WF (run (State.init ma mv) ops) ∧ DistInv (run (State.init ma mv) ops) ∧ World (run (State.init ma mv) ops) :=
+  run_world _ ops (init_wf ma mv h) (init_distInv ma mv) (init_world ma mv)
+
+/-- the example world, built from genesis by ops: rollapp r0 (gauge 1 + endorsement), asset gauge 2,
+    endorsement gauge 3 of r0 holding 100, asset gauge 4 -/
+def worldOps : List Op :=
+  [.addRollapp 0, .addGauge { id := 0, kind := .asset, perpetual := true },
+   .addGauge { id := 0, kind := .endorsement 0, perpetual := true, coins := 100 },
+   .addGauge { id := 0, kind := .asset, perpetual := true }]
+
+example : (run (State.init 1 1) worldOps).gauges = s0.gauges ∧
+    (run (State.init 1 1) worldOps).endorsements = s0.endorsements ∧
+    (run (State.init 1 1) worldOps).incBal = 100 ∧ (run (State.init 1 1) worldOps).lastGauge = 4 := by decide
+
+/-- non-vacuity of the from-genesis theorems: votes ARE accepted in a world built by ops, the tally is
+    not empty -/
+example : (run (State.init 1 1) (worldOps ++ [stake 0 0 7, .vote 0 [(2, half), (1, 1)]])).dist
+    = ⟨7, [(1, 0), (2, 3)]⟩ := by decide
+
+/-- creation ops are checked: an endorsement gauge needs its rollapp, a rollapp is created once, rollapp
+    gauges come from the hook only -/
+example : (step (State.init 1 1) (.addGauge { id := 0, kind := .endorsement 0, perpetual := true })).2.1 = some .noRollapp ∧
+    (step (run (State.init 1 1) worldOps) (.addRollapp 0)).2.1 = some .rollappExists ∧
+    (step (State.init 1 1) (.addGauge { id := 0, kind := .rollapp 0, perpetual := true })).2.1 = some .badGauge ∧
+    (step (State.init 1 1) (.setParams (-1) 0)).2.1 = some .badParams := by decide
+
 /-- consequence: no gauge ever has negative power in the distribution -/
 theorem distribution_power_nonneg (s : State) (ops : List Op) (wf : WF s) (inv : DistInv s) (g : Nat) :
     0 ≤ gget (run s ops).dist.gauges g := by
@@ -109,7 +160,7 @@ example : (run s0 [stake 0 0 1, .vote 0 [(2, half)], stake 0 0 2, stake 0 0 0]).
 /-- **power_tracks_staking_partial** — in slash-free histories in which a delegation's power
     changes only through its own hook, to the value the hook saw, every voter's recorded power
     equals the sum of its bonded delegations and every per-validator record equals the delegation. -/
-theorem power_tracks_staking_partial (s : State) (ops : List Op) (ht : Tracked s) (hm : MinInv s)
+theorem power_tracks_staking_partial (s : State) (ops : List Op) (ht : Tracked s)
     (hf : RunFaithful ops) :
     Tracked (run s ops) ∧
     ∀ a v, (run s ops).vote? a = some v →
@@ -118,7 +169,7 @@ theorem power_tracks_staking_partial (s : State) (ops : List Op) (ht : Tracked s
   induction ops generalizing s with
   | nil => exact ht
   | cons op ops ih =>
-    exact ih _ (step_tracked ht hm (hf op (by simp))) (step_min hm) (fun o ho => hf o (by simp [ho]))
+    exact ih _ (step_tracked ht (hf op (by simp))) (fun o ho => hf o (by simp [ho]))
 
 theorem init_tracked (ma mv : Int) : Tracked (State.init ma mv) :=
   ⟨trivial, fun _ _ h => (by cases h), fun _ _ _ => rfl⟩
@@ -161,25 +212,55 @@ theorem hook_below_min_exact (s : State) (a val : Nat) (v : Vote) (old new : Int
     DistInv (s.processHook a val v old new) :=
   (processHook_inv wf inv hv).2
 
-/-- **min_power_recorded** — in ALL histories every stored vote's recorded power is at least the minimum -/
-theorem min_power_recorded (s : State) (ops : List Op) (hm : MinInv s) : MinInv (run s ops) := by
-  induction ops generalizing s with
-  | nil => exact hm
-  | cons op ops ih => exact ih _ (step_min hm)
+/- **min_power_recorded** (full statement w.r.t. the CURRENT minimum — FALSE once MsgUpdateParams exists):
+     ∀ s ops, MinInv s → MinInv (run s ops)
+   `SetParams` stores the new parameters and does not revisit the votes: a vote cast under a lower
+   MinVotingPower stays (until its voter's next staking hook or re-vote compares against the new value). -/
+
+/-- **min_power_recorded_at_last_change** — in ALL histories (parameter changes included) every stored
+    vote's recorded power is at least the MinVotingPower that was in force when that vote last changed
+    (`ghostRun` carries that value per voter) -/
+theorem min_power_recorded_at_last_change (s : State) (ops : List Op) (m : Nat → Int) (hm : GMinInv s m) :
+    GMinInv (run s ops) (ghostRun s m ops) := run_gmin ops hm
+
+/-- from genesis (no votes yet, any initial ghost map) -/
+theorem min_power_recorded_at_last_change_from_init (ma mv : Int) (ops : List Op) (m : Nat → Int) :
+    GMinInv (run (State.init ma mv) ops) (ghostRun (State.init ma mv) m ops) :=
+  run_gmin ops (fun _ _ h => by cases h)
+
+/-- **min_power_recorded_partial** — histories that never RAISE MinVotingPower: every stored vote's
+    recorded power is at least the current minimum -/
+theorem min_power_recorded_partial (s : State) (ops : List Op) (hm : MinInv s) (hr : RunNoRaiseMin s ops) :
+    MinInv (run s ops) := run_min ops hm hr
+
+/-- a raise: a0 votes with 5 under minimum 1, the minimum becomes 8 — the vote with recorded power 5 stays -/
+def raiseOps : List Op := [stake 0 0 5, .vote 0 [(2, half)], .setParams 1 8]
+
+theorem min_power_recorded_counterexample :
+    ∃ s ops, MinInv s ∧ ¬ MinInv (run s ops) :=
+  ⟨s0, raiseOps, s0_min, fun h => absurd (h 0 ⟨5, [(2, half)]⟩ (by decide)) (by decide)⟩
+
+/-- … while the ghost statement holds on that witness: the vote last changed under minimum 1 -/
+example : ghostRun s0 (fun _ => 1) raiseOps 0 = 1 ∧ (run s0 raiseOps).minVP = 8 ∧
+    (run s0 raiseOps).vote? 0 = some ⟨5, [(2, half)]⟩ := by decide
+
+/-- the voter's next hook compares with the raised minimum: the vote is pruned -/
+example : (run s0 (raiseOps ++ [stake 0 0 6])).vote? 0 = none := by decide
 
 /- **below_min_prunes_vote** (full statement, w.r.t. the BONDED power — FALSE on the current code):
      ∀ s ops a, Tracked s → MinInv s → powerOf (run s ops).stk a < (run s ops).minVP → (run s ops).vote? a = none -/
 
-/-- **below_min_prunes_vote_partial** — slash-free faithful histories: whoever has less bonded power
-    than the minimum has no vote. -/
+/-- **below_min_prunes_vote_partial** — slash-free faithful histories that never raise
+    MinVotingPower: whoever has less bonded power than the minimum has no vote. -/
 theorem below_min_prunes_vote_partial (s : State) (ops : List Op) (ht : Tracked s) (hm : MinInv s)
-    (hf : RunFaithful ops) (a : Nat) (hlow : powerOf (run s ops).stk a < (run s ops).minVP) :
+    (hf : RunFaithful ops) (hr : RunNoRaiseMin s ops) (a : Nat)
+    (hlow : powerOf (run s ops).stk a < (run s ops).minVP) :
     (run s ops).vote? a = none := by
   cases hv : (run s ops).vote? a with
   | none => rfl
   | some v =>
-    have h1 := ((power_tracks_staking_partial s ops ht hm hf).2 a v hv).1
-    have h2 := min_power_recorded s ops hm a v hv
+    have h1 := ((power_tracks_staking_partial s ops ht hf).2 a v hv).1
+    have h2 := min_power_recorded_partial s ops hm hr a v hv
     omega
 
 example : (run s0 [stake 0 0 10, .vote 0 [(2, half)], stake 0 0 0]).vote? 0 = none := by decide
@@ -324,10 +405,145 @@ theorem claims_le_allotment_after_epoch_end_partial (s : State) (r rg eg : Nat) 
   show 0 ≤ x.2.gaugePower e.gaugeId
   rw [hpow x hx]; exact (wf.votes x hx).pow_nonneg _
 
+/-- **endorsement_shares_exact_from_init** — along EVERY history from genesis (rollapps, gauges and
+    endorsements created by ops): an endorsement names exactly one rollapp gauge, and its total shares
+    are the sum over the votes of their power on that gauge.  No hypotheses on the state. -/
+theorem endorsement_shares_exact_from_init (ma mv : Int) (h : 0 ≤ mv) (ops : List Op) (r : Nat) (e : Endorsement)
+    (he : (run (State.init ma mv) ops).endorsement? r = some e) :
+    e.total = vsum (fun v => v.pow e.gaugeId) (run (State.init ma mv) ops).votes ∧
+    (∀ g, raOf (run (State.init ma mv) ops).gauges g = some r ↔ g = e.gaugeId) := by
+  have w := (world_from_init ma mv h ops).2.2
+  have := w.endo r e he
+  refine ⟨?_, this.1.only⟩
+  have hs : totalOf (run (State.init ma mv) ops).endorsements r = _ := this.2
+  unfold totalOf at hs
+  unfold State.endorsement? at he
+  rw [he] at hs
+  exact hs
+
+example : (run (State.init 1 1) (worldOps ++ [stake 0 0 10, .vote 0 [(1, half)], stake 0 0 21])).endorsement? 0
+    = some ⟨0, 1, 10, 0⟩ := by decide
+
+/- **claims_le_allotment** for MIXED histories (full statement — FALSE on the current code):
+     within one distribution epoch (no `epochEnd true` among `ops`), from a state whose snapshot covers
+     the power that can still claim, `runPaid s eg ops ≤ R` for EVERY op list.
+   The invariant  paid·S + R·U ≤ R·S  (U = power on the rollapp gauge of the voters not yet blacklisted)
+   is kept by claim, vote (the voter is blacklisted), revoke, power-DEcreasing staking messages, slash,
+   fund, ends of other epochs, creation ops and parameter changes; it is broken ONLY by a staking message
+   that leaves a voter who can still claim with more recorded power (`NoRaiseOp`): the finding F7. -/
+
+/-- **claims_le_allotment_mixed_partial** — any interleaving of ops within one distribution epoch in
+    which no staking message raises the recorded power of a voter who has not yet claimed / voted in
+    this epoch: gauge `eg` pays at most its epoch rewards `R`. -/
+theorem claims_le_allotment_mixed_partial (s : State) (eg r rg : Nat) (R S : Int) (ops : List Op)
+    (ctx : EpochCtx s eg r rg R S) (hR : 0 ≤ R) (hS : 0 < S) (hcov : U s rg ≤ S)
+    (hne : ∀ op ∈ ops, isEpochEnd op = false) (hnr : NoRaiseRun s ops) : runPaid s eg ops ≤ R := by
+  have h := claims_bound_mixed hR hS ops hne s ctx hnr
+  have h2 : R * U s rg ≤ R * S := Int.mul_le_mul_of_nonneg_left hcov hR
+  exact Int.le_of_mul_le_mul_right (Int.le_trans h h2) hS
+
+/-- **claims_le_allotment_mixed_from_init_partial** — from genesis: after ANY history `pre` the
+    distribution epoch ends; whatever follows within the new epoch (under the exclusion above), the
+    endorsement gauge `eg` of rollapp `r` pays at most the epoch rewards `R` it was given at that end. -/
+theorem claims_le_allotment_mixed_from_init_partial (ma mv : Int) (hmv : 0 ≤ mv) (pre ops : List Op)
+    (eg r : Nat) (R : Int) (e : Endorsement)
+    (hG : GaugeIs ((run (State.init ma mv) pre).epochEnd true) eg r R)
+    (he : ((run (State.init ma mv) pre).epochEnd true).endorsement? r = some e)
+    (hR : 0 ≤ R) (hS : 0 < e.epoch)
+    (hne : ∀ op ∈ ops, isEpochEnd op = false)
+    (hnr : NoRaiseRun ((run (State.init ma mv) pre).epochEnd true) ops) :
+    runPaid ((run (State.init ma mv) pre).epochEnd true) eg ops ≤ R := by
+  obtain ⟨wf, inv, w⟩ := world_from_init ma mv hmv pre
+  generalize run (State.init ma mv) pre = s at *
+  have hee := epochEnd_endorsements s
+  have hcore := (epochEnd_core s true).1
+  have g := step_good (op := .epochEnd true) wf inv
+  -- the endorsement before the epoch end
+  have he' : (s.endorsements.map fun e => { e with epoch := e.total }).find? (·.r == r) = some e := by
+    rw [← hee.1]; exact he
+  rw [find_map_r (f := fun e => { e with epoch := e.total }) (fun _ => rfl)] at he'
+  cases he0 : s.endorsements.find? (·.r == r) with
+  | none => rw [he0] at he'; cases he'
+  | some e0 =>
+    rw [he0] at he'
+    simp only [Option.map, Option.some.injEq] at he'
+    subst he'
+    have hw := w.endo r e0 he0
+    have hsh : totalOf s.endorsements r = vsum (fun v => v.pow e0.gaugeId) s.votes := hw.2
+    have ht : totalOf s.endorsements r = e0.total := by unfold totalOf; rw [he0]
+    have hpow : ∀ x ∈ s.votes, x.2.gaugePower e0.gaugeId = x.2.pow e0.gaugeId :=
+      fun x hx => ((pow_eq_gaugePower (wf.votes x hx) e0.gaugeId).1).symm
+    have hcov : U (s.epochEnd true) e0.gaugeId = e0.total := by
+      unfold U
+      rw [hee.2, hcore.votes, usum_nil_eq,
+        vsum_congr (f := fun v => v.gaugePower e0.gaugeId) (g := fun v => v.pow e0.gaugeId) hpow, ← hsh, ht]
+    exact claims_le_allotment_mixed_partial (s.epochEnd true) eg r e0.gaugeId R e0.total ops
+      ⟨hG, ⟨_, he, rfl, rfl⟩, g.1, g.2⟩ hR hS (Int.le_of_eq hcov) hne hnr
+
 /-- F7 — a0 and a1 hold 10 each at the snapshot (allotment 100); a0 raises its stake to 30 and claims
     150 > 100 (paid out of the module's pooled balance), a1 still claims its 50 -/
+def f7ops : List Op := [stake 0 0 30, .claim 0 3, .claim 1 3]
+
 theorem claims_le_allotment_counterexample :
-    ∃ s gid R, GaugeIs s gid 0 R ∧ R < runPaid s gid [stake 0 0 30, .claim 0 3, .claim 1 3] :=
+    ∃ s gid R, GaugeIs s gid 0 R ∧ R < runPaid s gid f7ops :=
   ⟨claimWorld, 3, 100, ⟨g3', by decide, by decide, by decide⟩, by decide⟩
+
+theorem claimWorld_ctx : EpochCtx claimWorld 3 0 1 100 20 := by
+  have h := distribution_eq_sum_of_votes s0
+    [stake 0 0 10, stake 1 0 10, .vote 0 [(1, full)], .vote 1 [(1, full)], .epochEnd true] s0_wf s0_distInv
+  exact ⟨⟨g3', by decide, by decide, by decide⟩, ⟨⟨0, 1, 20, 20⟩, by decide, rfl, rfl⟩, h.1, h.2⟩
+
+/-- the F7 witness satisfies EVERY hypothesis of `claims_le_allotment_mixed_partial` except the
+    exclusion — and it violates exactly that one (a0, not yet blacklisted, goes from 10 to 30) -/
+theorem claims_le_allotment_counterexample_only_breaks_exclusion :
+    EpochCtx claimWorld 3 0 1 100 20 ∧ U claimWorld 1 ≤ 20 ∧ (∀ op ∈ f7ops, isEpochEnd op = false) ∧
+    ¬ NoRaiseRun claimWorld f7ops ∧ 100 < runPaid claimWorld 3 f7ops := by
+  refine ⟨claimWorld_ctx, by decide, ?_, ?_, by decide⟩
+  · intro op hop
+    simp only [f7ops, List.mem_cons, List.mem_nil_iff, or_false] at hop
+    rcases hop with rfl | rfl | rfl <;> rfl
+  · intro h
+    rcases h.1 with hin | hle
+    · exact absurd hin (by decide)
+    · have := hle ⟨10, [(1, full)]⟩ ⟨30, [(1, full)]⟩ (by decide) (by decide)
+      exact absurd this (by decide)
+
+/-- non-vacuity of the mixed theorem: a history with a vote, a revocation, a DEcreasing staking message,
+    funding, an hour epoch's end, a parameter change and a new rollapp between the claims satisfies the
+    hypotheses; the gauge pays 50 + 25 ≤ 100 -/
+def mixedOps : List Op :=
+  [.claim 0 3, .epochEnd false, stake 1 0 5, .fund 3 7, .setParams 1 2, .addRollapp 1, stake 2 0 9,
+   .vote 2 [(1, full)], .claim 2 3, .claim 1 3, .revoke 0, .slash [((1, 0), some 4)]]
+
+example : U claimWorld 1 ≤ 20 ∧ (∀ op ∈ mixedOps, isEpochEnd op = false) ∧ runPaid claimWorld 3 mixedOps = 75 := by
+  refine ⟨by decide, ?_, by decide⟩
+  intro op hop
+  simp only [mixedOps, List.mem_cons, List.mem_nil_iff, or_false] at hop
+  rcases hop with rfl | rfl | rfl | rfl | rfl | rfl | rfl | rfl | rfl | rfl | rfl | rfl <;> rfl
+
+/- **gauge_never_overpaid** (full statement — FALSE on the current code, two root causes):
+     along every history an endorsement gauge's DistributedCoins stays ≤ its Coins.
+   (a) F7 above (current power against the snapshot); (b) a FINISHED gauge: x/incentives updates only
+   ACTIVE gauges at the epoch end, so a finished endorsement gauge keeps its last EpochRewards, and
+   `Claim` / `EstimateClaim` / `DistributeEndorsementRewards` look neither at the gauge's state nor at
+   Coins − DistributedCoins.  `claims_le_allotment_mixed_partial` still holds for such a gauge — but the
+   `R` it speaks of is a stale field, not an allotment the gauge was given for this epoch. -/
+
+/-- the 1-epoch variant of gauge 3 -/
+def g3n : Gauge := { g3 with perpetual := false }
+
+def s0n : State := { s0 with gauges := [g1, g2, g3n, g4] }
+
+/-- a0 endorses r0 alone; the epoch ends (gauge 3 gets all its 100 as EpochRewards and is finished), a0
+    claims 100; the next epoch ends (the finished gauge is not touched, the blacklist is cleared), a0
+    claims 100 again: 200 distributed out of 100 — with NO staking message at all after the vote -/
+def finishedOps : List Op :=
+  [stake 0 0 10, .vote 0 [(1, full)], .epochEnd true, .claim 0 3, .epochEnd true, .claim 0 3]
+
+theorem gauge_never_overpaid_counterexample :
+    ∃ s ops gid g, NoRaiseRun ((run s (ops.take 3))) (ops.drop 3) ∧ (run s ops).gauge? gid = some g ∧
+      g.status = .finished ∧ g.kind = .endorsement 0 ∧ g.coins < g.distributed :=
+  ⟨s0n, finishedOps, 3, { g3n with distributed := 200, epochRewards := some 100, filled := 1, status := .finished },
+    ⟨trivial, trivial, trivial, trivial⟩, by decide, rfl, rfl, by decide⟩
 
 end DymVerif.Props.C16
